@@ -17,7 +17,11 @@ CHECKS = {
     },
     "C03": {
         "groups": [
-            {"pkg": "Havoc/pkg/common/parser", "entries": ["H_c03_int", "H_c03_bytes", "H_c03_canread"]},
+            {"pkg": "Havoc/pkg/common/parser", "entries": ["H_c03_int", "H_c03_bytes"]},
+            {"pkg": "Havoc/pkg/common/parser", "entries": ["H_c03_canread"], "shards": 8},
+            {"pkg": "Havoc/pkg/common", "entries": ["H_c03_utf16", "H_c03_stripnull"]},
+            {"pkg": "Havoc/pkg/agent", "with": AGENT_WITH, "entries": ["H_c03_register"], "shards": 3},
+            {"pkg": "Havoc/pkg/agent", "with": AGENT_WITH, "entries": ["H_c03_identity"]},
         ],
         "bounds": "ParseInt32/64/Bool/Pointer: buffer length 0..16, all byte values; ParseBytes: length 0..14; CanIRead: 0..3 fields of the 5 kinds over 0..16 bytes.",
         "outside": "longer buffers; console text formatting",
